@@ -35,7 +35,11 @@ _CMP = {z3.Z3_OP_LT, z3.Z3_OP_LE, z3.Z3_OP_GT, z3.Z3_OP_GE, z3.Z3_OP_EQ, z3.Z3_O
 
 class Explorer:
     def __init__(self, seed=0, maxpaths=256, npool=400, feas_ms=(3000, 20000), scale=1.0,
-                 maxdecisions=400):
+                 maxdecisions=400, follow_nominal=False):
+        # follow_nominal: explore ONLY the path taken by the nominal geometry (no forks); obligations are then decided for all
+        # values that take the same branches as the nominal point (an open set around it); the other sides are counted as
+        # not explored by design
+        self.follow_nominal = follow_nominal
         self.seed = seed
         self.maxpaths = maxpaths
         self.npool = npool
@@ -284,6 +288,16 @@ class Explorer:
         t, robust = self._truth(e)
         if i < len(self.prefix):
             c = self.prefix[i]
+        elif self.follow_nominal:
+            env = {k_: Fr(v_) for k_, v_ in self.vars.items()}
+            try:
+                c = bool(zeval.eval_exact(e, env))
+            except Exception:
+                envf = {k_: np.array([v_]) for k_, v_ in self.vars.items()}
+                for (rv, s_, k_) in self.rootvars:
+                    envf[rv.decl().name()] = np.abs(np.asarray(zeval.eval_float(s_.a, envf), dtype=float)) ** (1.0 / k_)
+                c = bool(np.asarray(zeval.eval_float(e, envf)).ravel()[0])
+            self.stats['not_explored_by_design'] = self.stats.get('not_explored_by_design', 0) + 1
         else:
             okT = self.alive & robust & t
             okF = self.alive & robust & ~t
